@@ -149,14 +149,30 @@ fn handles_sound(t: &mut Twin, ha: &[Entity<ArchA>], hb: &[Entity<ArchB>]) -> Op
     for e in ha.iter() {
         // a handle of another lineage may trip the documented debug assertion (slot beyond the capacity): that is a clean refusal
         if catch_unwind(AssertUnwindSafe(|| t.world.arch_a.contains(*e))).unwrap_or(false) {
-            match t.world.arch_a.borrow(*e) { Some(b) => if b.entity() != e { return Some(format!("handle {:?} reaches the row of {:?}", e, b.entity())); }, None => return Some(format!("contains({:?}) but borrow gives None", e)) }
+            match t.world.arch_a.borrow(*e) {
+                Some(b) => {
+                    if b.entity() != e { return Some(format!("handle {:?} reaches the row of {:?}", e, b.entity())); }
+                    let id = b.component::<Tracked>().id;
+                    if !reg(|r| r.live.contains(&id)) { return Some(format!("handle {:?} reaches a component value that was already dropped (use after drop)", e)); }
+                }
+                None => return Some(format!("contains({:?}) but borrow gives None", e)),
+            }
         }
     }
     for e in hb.iter() {
         if catch_unwind(AssertUnwindSafe(|| t.world.arch_b.contains(*e))).unwrap_or(false) {
-            match t.world.arch_b.borrow(*e) { Some(b) => if b.entity() != e { return Some(format!("handle {:?} reaches the row of {:?}", e, b.entity())); }, None => return Some(format!("contains({:?}) but borrow gives None", e)) }
+            match t.world.arch_b.borrow(*e) {
+                Some(b) => {
+                    if b.entity() != e { return Some(format!("handle {:?} reaches the row of {:?}", e, b.entity())); }
+                    let id = b.component::<Tracked>().id;
+                    if !reg(|r| r.live.contains(&id)) { return Some(format!("handle {:?} reaches a component value that was already dropped (use after drop)", e)); }
+                }
+                None => return Some(format!("contains({:?}) but borrow gives None", e)),
+            }
         }
     }
+    for id in t.world.arch_a.iter_mut().map(|v| v.1.id).collect::<Vec<_>>() { if !reg(|r| r.live.contains(&id)) { return Some("a listed row holds a component value that was already dropped".into()); } }
+    for id in t.world.arch_b.iter_mut().map(|v| v.3.id).collect::<Vec<_>>() { if !reg(|r| r.live.contains(&id)) { return Some("a listed row holds a component value that was already dropped".into()); } }
     let listed_b: Vec<_> = t.world.arch_b.iter_mut().map(|v| *v.0).collect();
     if listed_b.len() != t.world.arch_b.len() { return Some("len() of the second archetype differs from the number of entities".into()); }
     for e in listed_b { if !t.world.arch_b.contains(e) { return Some(format!("listed entity {:?} does not resolve", e)); } }
